@@ -241,6 +241,14 @@ class World:
             kw["pad_for_convolver"] = True
         if "use_normalized_psf" in s:
             kw["use_normalized_psf"] = bool(s["use_normalized_psf"])
+        if s.get("cov"):
+            n = int(round(len(s["cov"]) ** 0.5))
+            a = floats(s["cov"], (n, n))
+            cov = a @ a.T + np.eye(n)
+            if s.get("cov_order") == "F":
+                cov = np.asfortranarray(cov)
+            kw["noise_covariance_matrix"] = self.own(s["id"], "noise_covariance_matrix", cov)
+            return aa.Imaging(data=self.n(s["data"]), psf=self.opt(s.get("psf")), **kw)
         return aa.Imaging(data=self.n(s["data"]), noise_map=self.n(s["noise"]), psf=self.opt(s.get("psf")), **kw)
 
     def _b_simulator(self, s):
